@@ -1426,6 +1426,11 @@ class Engine:
         c = self.eval(st.test, env, mod)
         if not self.truth(c): raise PyRaise(Exc("AssertionError"))
     def s_Raise(self, st, env, mod):
+        if st.exc is None:
+            # bare 'raise' inside a handler: the exception being handled
+            cur = getattr(self, "handling", None)
+            if not cur: raise Unsupported("bare raise outside an except block")
+            raise PyRaise(cur[-1])
         e = self.eval(st.exc, env, mod)
         if isinstance(e, ClassV): e = Exc(e.name)
         raise PyRaise(e)
@@ -1606,7 +1611,11 @@ class Engine:
                 for h in st.handlers:
                     if h.type is None or self.exc_matches(pr.exc, self.eval(h.type, env, mod)):
                         if h.name: env.assign(h.name, pr.exc)
-                        self.exec_block(h.body, env, mod); break
+                        if not hasattr(self, "handling"): self.handling = []
+                        self.handling.append(pr.exc)
+                        try: self.exec_block(h.body, env, mod)
+                        finally: self.handling.pop()
+                        break
                 else: raise
             else:
                 self.exec_block(st.orelse, env, mod)
